@@ -4,7 +4,10 @@ Bandit A answers q queries, its deep copy B (taken just before) answers none.  A
 are then grafted onto B (the only thing queries may change) and one seeded continuation - always containing
 a partial_fit, often arm changes / warm start / refit - is run on both; the output streams must be equal
 bit-for-bit.  Behaviour is compared, not raw state (LSH look-ups insert empty buckets, Thompson caches its
-last draw: invisible by design)."""
+last draw: invisible by design).
+
+As built: Workload extras: far-away rows (empty neighbourhoods) and 40 / 130-row batches among the intervening queries and in the continuation.
+"""
 from mon import env  # noqa: F401
 import copy
 
